@@ -22,6 +22,7 @@ type Clause struct {
 	Expr  ast.Expr
 	Line  int
 	File  string
+	Assumed bool // ensures clause that is assumed at call sites but not verified on the body (listed; backed by a bounded stand-in)
 }
 
 type Macro struct {
@@ -113,7 +114,7 @@ func (cs *ContractSet) Get(pkgdir, id string) *UnitContract {
 	return cs.ByID[pkgdir+":"+id]
 }
 
-var clauseHead = regexp.MustCompile(`^(requires|ensures|exit-ensures|invariant|assume|prove)(\[[A-Za-z0-9., ]*\])?\s+(?:([A-Za-z0-9_\-\.]+):\s)?(.*)$`)
+var clauseHead = regexp.MustCompile(`^(requires|ensures-assumed|ensures|exit-ensures|invariant|assume|prove)(\[[A-Za-z0-9., ]*\])?\s+(?:([A-Za-z0-9_\-\.]+):\s)?(.*)$`)
 
 func parseTags(s string) []string {
 	s = strings.Trim(s, "[]")
@@ -461,6 +462,19 @@ func (cs *ContractSet) parseFile(path, pkgdir string) error {
 			anchor, _ := strconv.Unquote(rest[:j+1])
 			stmt := strings.TrimSpace(rest[j+1:])
 			stmt = strings.TrimSpace(strings.TrimPrefix(stmt, ":"))
+			if strings.HasPrefix(stmt, "assume") {
+				m := clauseHead.FindStringSubmatch("prove" + strings.TrimPrefix(stmt, "assume"))
+				if m == nil {
+					return fail(l, "assume name: expr")
+				}
+				e, err := parseSpecExpr(m[4])
+				if err != nil {
+					return fail(l, "%v", err)
+				}
+				c := &Clause{Kind: "assume", Tags: parseTags(m[2]), Name: m[3], Text: m[4], Expr: e, Line: l.line, File: path}
+				cur.AtStmts = append(cur.AtStmts, &AtStmt{Anchor: normWS(anchor), Before: before, Assert: c, Text: stmt})
+				break
+			}
 			if strings.HasPrefix(stmt, "assert") {
 				m := clauseHead.FindStringSubmatch("prove" + strings.TrimPrefix(stmt, "assert"))
 				if m == nil {
@@ -567,6 +581,13 @@ func (cs *ContractSet) parseFile(path, pkgdir string) error {
 					c.Name = fmt.Sprintf("r%d", len(cur.Requires)+1)
 				}
 				cur.Requires = append(cur.Requires, c)
+			case "ensures-assumed":
+				c.Kind = "ensures"
+				c.Assumed = true
+				if c.Name == "" {
+					c.Name = fmt.Sprintf("e%d", len(cur.Ensures)+1)
+				}
+				cur.Ensures = append(cur.Ensures, c)
 			case "ensures", "prove":
 				c.Kind = "ensures"
 				if c.Name == "" {
